@@ -132,6 +132,7 @@ type trieH struct {
 	startKeys   map[string]bool // keys reachable from the root this trie was opened at (block trie only)
 	snap        string          // last full observation (frame)
 	staleReads  bool            // an ancestor moved on and this trie's reads started to fail (see frame)
+	stale       bool            // an ancestor executed a successful write / merge / MergeDB after this trie was opened: reads and writes through it are outside C03 (only its merge must be rejected) and are answered with a fixed token, not executed
 	// op `snap`: the tuple GetChanges() returned at that moment, with the oracle's view of the trie at that moment
 	hasSnap     bool
 	snapRoot    util.Key
@@ -360,6 +361,18 @@ func (s *storeRun) ancestorMoved(t *trieH) bool {
 	return false
 }
 
+// wrote: trie t executed a successful write (own operation, accepted merge of `except` into it, MergeDB): every open
+// descendant of t is stale from now on - except the child whose accepted merge this is (the parent moved exactly to that
+// child's state; the child's own descendants are stale). The model driver applies the same rule.
+func (s *storeRun) wrote(t *trieH, except int) {
+	t.muts++
+	for _, d := range s.descendants(t.id) {
+		if d != except {
+			s.tries[d].stale = true
+		}
+	}
+}
+
 func staleReadError(out string) bool {
 	return out == "nodenotfound" || out == "iterchild" || out == "missingnodes"
 }
@@ -398,7 +411,7 @@ func (s *storeRun) frame(except map[int]bool, mutated int) {
 			continue
 		}
 		if now != t.snap {
-			if t.staleReads && sameButIter(now, t.snap) {
+			if (t.staleReads || t.stale) && sameButIter(now, t.snap) {
 				continue
 			}
 			if mutated >= 0 && id != mutated && s.isDescendant(id, mutated) && sameButIter(now, t.snap) {
@@ -907,6 +920,10 @@ func (s *storeRun) exec(op string) string {
 		if t == nil {
 			return "bad-op"
 		}
+		if t.stale {
+			s.tags["stale-write-skipped"] = true
+			return "stale-write"
+		}
 		s.roundOps = append(s.roundOps, op)
 		w := int64(atoi(f[1]))
 		donorDB := util.NewMemoryNodeDB()
@@ -956,7 +973,7 @@ func (s *storeRun) exec(op string) string {
 			s.fail("*", "MergeDB from a donor store failed: %s", out)
 		}
 		t.content = content
-		t.muts++
+		s.wrote(t, -1)
 		s.tags["syncfrom"] = true
 		if w != s.version {
 			s.tags["syncfrom-other-origin"] = true
@@ -982,8 +999,9 @@ func (s *storeRun) exec(op string) string {
 			}
 		}
 		t := s.openChild(id, p)
+		t.stale = p.stale
 		s.tries[id] = t
-		if !s.sub {
+		if !s.sub && !t.stale {
 			s.checkView(t, "child view at open")
 			s.frame(map[int]bool{id: true}, -1)
 		}
@@ -993,6 +1011,11 @@ func (s *storeRun) exec(op string) string {
 		t := trie(f[1])
 		if t == nil {
 			return "bad-op"
+		}
+		if t.stale {
+			// a stale trie is only merged (rejected) or discarded: its writes read through the ancestor's store
+			s.tags["stale-write-skipped"] = true
+			return "stale-write"
 		}
 		s.roundOps = append(s.roundOps, op)
 		path := pathOf(f[2])
@@ -1035,14 +1058,14 @@ func (s *storeRun) exec(op string) string {
 				s.fail("*", "insert into trie %d failed: %s", t.id, out)
 			} else {
 				t.content[path] = val
-				t.muts++
+				s.wrote(t, -1)
 			}
 		case present:
 			if !strings.HasPrefix(out, "ok") {
 				s.fail("*", "delete of a path present in the view of trie %d failed: %s", t.id, out)
 			} else {
 				delete(t.content, path)
-				t.muts++
+				s.wrote(t, -1)
 				s.tags["delete-present"] = true
 			}
 		default:
@@ -1068,6 +1091,10 @@ func (s *storeRun) exec(op string) string {
 		if t == nil || len(f) < 4 || len(f)%2 != 0 {
 			return "bad-op"
 		}
+		if t.stale {
+			s.tags["stale-write-skipped"] = true
+			return "stale-write"
+		}
 		s.roundOps = append(s.roundOps, op)
 		out := guard(func() string {
 			for i := 2; i+1 < len(f); i += 2 {
@@ -1090,7 +1117,7 @@ func (s *storeRun) exec(op string) string {
 		if !strings.HasPrefix(out, "ok") {
 			s.fail("*", "bulk insert into trie %d failed: %s", t.id, out)
 		}
-		t.muts++
+		s.wrote(t, -1)
 		s.tags["bulk"] = true
 		if !s.sub && !s.light {
 			s.checkView(t, "after bulk insert")
@@ -1105,6 +1132,10 @@ func (s *storeRun) exec(op string) string {
 		t := trie(f[1])
 		if t == nil {
 			return "bad-op"
+		}
+		if t.stale {
+			s.tags["stale-read-skipped"] = true
+			return "stale-read"
 		}
 		out := guard(func() string {
 			ps, err := iterPairs(t.mpt)
@@ -1128,6 +1159,10 @@ func (s *storeRun) exec(op string) string {
 		t := trie(f[1])
 		if t == nil {
 			return "bad-op"
+		}
+		if t.stale {
+			s.tags["stale-read-skipped"] = true
+			return "stale-read"
 		}
 		path := pathOf(f[2])
 		out := guard(func() string {
@@ -1217,7 +1252,7 @@ func (s *storeRun) exec(op string) string {
 				s.fail("C03", "merge of stale trie %d (its parent %d changed since it was opened) was accepted", c.id, p.id)
 			}
 			if c.muts > 0 {
-				p.muts++ // the root may move even when the content does not (identical content re-created at a newer version)
+				s.wrote(p, c.id) // the root may move even when the content does not (identical content re-created at a newer version)
 			}
 			if !mapsEqual(p.content, c.content) {
 				s.ntMerges++
@@ -1297,7 +1332,7 @@ func (s *storeRun) exec(op string) string {
 				s.fail("C03", "merge of a stale change set of trie %d (its parent %d changed since it was opened) was accepted", c.id, p.id)
 			}
 			if c.snapMuts > 0 {
-				p.muts++
+				s.wrote(p, -1)
 			}
 			if !mapsEqual(p.content, c.snapContent) {
 				s.ntMerges++
@@ -1345,6 +1380,10 @@ func (s *storeRun) exec(op string) string {
 		t := trie(f[1])
 		if t == nil {
 			return "bad-op"
+		}
+		if t.stale {
+			s.tags["stale-read-skipped"] = true
+			return "stale-read"
 		}
 		return s.observe(t)
 
